@@ -42,6 +42,7 @@ import (
 	"gitlab.com/yawning/obfs4.git/common/csrand"
 	"gitlab.com/yawning/obfs4.git/common/drbg"
 	"gitlab.com/yawning/obfs4.git/common/ntor"
+	"gitlab.com/yawning/obfs4.git/internal/atomicfile"
 )
 
 const (
@@ -235,7 +236,7 @@ func writeJSONServerState(stateDir string, js *jsonServerState) error {
 	if encoded, err = json.Marshal(js); err != nil {
 		return err
 	}
-	return os.WriteFile(path.Join(stateDir, stateFile), encoded, 0o600)
+	return atomicfile.WriteFile(path.Join(stateDir, stateFile), encoded, 0o600)
 }
 
 func newBridgeFile(stateDir string, st *obfs4ServerState) error {
